@@ -170,6 +170,11 @@ nni_posix_tcp_dial_cb(void *arg, unsigned ev)
 			// later.
 			nni_mtx_unlock(&d->mtx);
 			return;
+		} else if (rv == EPIPE) {
+			// The peer accepted and reset at once.  That is a failed
+			// connection attempt, not "this object was closed" (which
+			// would stop a dialer from ever redialing).
+			rv = NNG_ECONNSHUT;
 		} else if (rv != 0) {
 			rv = nni_plat_errno(rv);
 		}
